@@ -60,7 +60,9 @@ MANIFEST = {
 }
 TRUSTED = [
     "Lean 4.33 kernel; axioms ⊆ {propext, Classical.choice, Quot.sound}; Mathlib.Analysis.Real.Sqrt, Mathlib.Analysis.Complex.Exponential",
-    "harness/translate/recipes/c09.py + c09_tables.py (safe_divide guard/branches, sum/unsqueeze axes, sqrt, exponent, statement order, "
+    "harness/translate/recipes/c09.py + c09_tables.py + c09_inline.py (private helpers of the same class/module are inlined, local names "
+    "are resolved by flow-aware substitution, guards are evaluated on probe values, effects are judged by taint of the target — so "
+    "helper extraction, hoisted locals, if/elif flattening and renamed locals do not change the tables) (safe_divide guard/branches, sum/unsqueeze axes, sqrt, exponent, statement order, "
     "window, forward branch table, effects, option forwarding, definitions of compute_sensitivity_map, model choice, permutations)",
     "Driver/C09.lean reshape of (batch, coil, *spatial, complex=2) into [coil][pixel] — validated by correspondence",
     "recovery of exact rationals from float32 outputs by Fraction.limit_denominator(1024) within 2e-6 (maps) / 4e-6 (window exponents -ln w)",
